@@ -626,7 +626,8 @@ int main(int argc, char *argv[])
       }
       else
       {
-         cpd.lang_forced = true;
+         cpd.lang_forced       = true;
+         cpd.lang_flags_forced = cpd.lang_flags;
       }
    }
    // Get the source file name
@@ -1533,6 +1534,12 @@ static void do_source_file(const char *filename_in,
       || cpd.lang_flags == 0)
    {
       cpd.lang_flags = language_flags_from_filename(filename_in);
+   }
+   else
+   {
+      // the tokenizer may have switched on Objective-C while parsing a
+      // previous file; start every file with the language given with -l
+      cpd.lang_flags = cpd.lang_flags_forced;
    }
 
    // Try to read in the source file
